@@ -442,6 +442,52 @@ def _solve_tail(les, nes, pending):
     return rec(0, rows)
 
 
+_IN_CONGRUENCE = [False]
+_CONG_LITS = {}
+
+
+def _byte_congruence(les, eqs, nes, atoms):
+    """memory cells are functions of their address: for two byte atoms of one buffer whose (symbolic) offsets the
+    literals force to be equal, the bytes are equal.  Returns extra equalities (Lin == 0)."""
+    if _IN_CONGRUENCE[0] or __import__("os").environ.get("RTCP_NO_CONG"):
+        return []
+    cells = {}
+    for a in atoms:
+        if a[0] == "byte":
+            off = Lin.from_key(a[2]) if not isinstance(a[2], tuple) or (a[2] and not isinstance(a[2][0], str)) else None
+            if off is not None and not off.is_const():
+                cells.setdefault(repr(a[1]), []).append((a, off))
+    out = []
+    for group in cells.values():
+        if len(group) < 2 or len(group) > 6:
+            continue
+        for i in range(len(group)):
+            for j in range(i):
+                (a1, o1), (a2, o2) = group[i], group[j]
+                d = o1 - o2
+                if d.is_const():
+                    continue
+                # two spellings of one address differ by something the literals tie to a length (`len - 1` vs a header
+                # expression): without a length atom in the difference there is nothing that could make it vanish
+                if not any(x[0] == "len" for x in atoms_deep(d)):
+                    continue
+                # only the literals connected to the two offsets matter (and the sliced query is memoised)
+                key = (o1.key(), o2.key())
+                lits = _CONG_LITS.get(id(les))
+                if lits is None:
+                    lits = [("le", L) for L in les] + [("eq", L) for L in eqs] + [("ne", L) for L in nes]
+                    _CONG_LITS.clear()
+                    _CONG_LITS[id(les)] = lits
+                _IN_CONGRUENCE[0] = True
+                try:
+                    same = conj_unsat(lits, [("ne", d)])
+                finally:
+                    _IN_CONGRUENCE[0] = False
+                if same:
+                    out.append(Lin.atom(a1) - Lin.atom(a2))
+    return out
+
+
 def unsat(lits):
     """lits: iterable of literals (le/eq/ne/b/forall).  True iff proven unsatisfiable."""
     STATS["unsat_calls"] += 1
@@ -502,6 +548,9 @@ def unsat(lits):
         atoms_deep(L, atoms)
     for L in nes:
         atoms_deep(L, atoms)
+    cong = _byte_congruence(les, eqs, nes, atoms)
+    if cong:
+        eqs = eqs + cong
     # link div/mod pairs: when a div atom is present make sure its mod partner is as well
     extra_eqs = []
     for a in list(atoms):
@@ -522,6 +571,14 @@ def unsat(lits):
             les.append(l[1])
         else:
             eqs.append(l[1])
+    # an inequality that meets the opposite range axiom is an equality (`x mod 4 <= 0` with `0 <= x mod 4`): the
+    # congruence reasoning below reads equalities
+    if len(les) > 1:
+        keys2 = {L.key() for L in les}
+        have_eq = {L.key() for L in eqs}
+        for L in list(les):
+            if len(L.t) == 1 and (-L).key() in keys2 and L.key() < (-L).key() and L.key() not in have_eq and (-L).key() not in have_eq:
+                eqs.append(L)
     # congruence rewriting
     ms = _moduli(atoms)
     if ms:
